@@ -21,8 +21,8 @@ ASSUMPTIONS = [
     "idle R tie alphabet (IdleHs.ih_alpha, 160 words): enable x valid x (data, ctrl) in {idle word, all-ones, each single data "
     "bit, each single ctrl bit}; random full-width words: correspondence only",
     "timers: Tk = floor(f * 10 us), Tr = floor(f * 1 ms) computed exactly (integer arithmetic) in props/C44.py and compared "
-    "with what the code derives from ss_clock_frequency (float) through the tie; R tie at f = 300 kHz (quick) + "
-    "{400 kHz, 700 kHz, 1 MHz, 1.6 MHz} (thorough), all 16 input combinations per cycle; correspondence at 2.5 MHz (quick) + 12.5 MHz and 125 MHz = LUNA's default (thorough)",
+    "with what the code derives from ss_clock_frequency (float) through the tie; R tie at f = 300 kHz and 350 kHz (10 us = 3.5 cycles, not whole) (quick) + "
+    "{400 kHz, 700 kHz, 1 MHz, 1.6 MHz} (thorough), all 16 input combinations per cycle; correspondence at 2.5 MHz and 1.5625 MHz (10 us = 15.625 cycles) (quick), 15.625 MHz (thorough) + 12.5 MHz and 125 MHz = LUNA's default (thorough)",
     "timers: the registers are Signal(range(T)) and wrap at 2^w; the exact-cycle theorems are stated for the first 2^w quiet "
     "cycles (the code comments that roll-over is harmless because the strobe's consumer restarts the timer)",
     "the 10 us keepalive interval of the code is far below the 10 ms bound of the property text; time = cycles / f",
@@ -67,10 +67,12 @@ def mk_timers(f_hz, big=False):
 
 def targets(tier):
     ts = [mk_idle(4)]
-    ts += [mk_timers(300_000), mk_timers(2_500_000, big=True)]
+    # 350 kHz and 1.5625 MHz: 10 us is NOT a whole number of cycles (3.5 / 15.625), so Tr = floor(f * 1 ms) = 350 / 1562
+    # differs from 100 * Tk = 300 / 1500: the recovery timeout must be derived from 1 ms, not from the truncated keepalive count
+    ts += [mk_timers(300_000), mk_timers(350_000), mk_timers(2_500_000, big=True), mk_timers(1_562_500, big=True)]
     if tier != "quick":
         ts += [mk_idle(1), mk_idle(2), mk_idle(3), mk_idle(7)]
-        ts += [mk_timers(400_000), mk_timers(700_000), mk_timers(1_000_000), mk_timers(1_600_000), mk_timers(12_500_000, big=True),
+        ts += [mk_timers(400_000), mk_timers(700_000), mk_timers(1_000_000), mk_timers(1_600_000), mk_timers(12_500_000, big=True), mk_timers(15_625_000, big=True),
                mk_timers(125_000_000, big=True)]
     return ts
 
